@@ -14,7 +14,7 @@ for f in seeded/*; do case "$f" in *patch.diff) ;; *) cp "$f" $OUT/ ;; esac; don
 # library files touched by the patch
 FILES=$(grep '^+++ b/' seeded/patch.diff | sed 's#^+++ b/##')
 echo "files: $FILES" >> $LOG
-git checkout -- $FILES
+git checkout -- .
 echo "== demo WITHOUT the change (expect pass)" >> $LOG
 go test -vet=off -count=1 -run "$RX" $PKG >> $LOG 2>&1; A=$?
 git apply seeded/patch.diff || { echo "patch does not apply" >> $LOG; exit 2; }
